@@ -84,6 +84,43 @@ func (r *ContentReader) parseComments() {
 		return
 	}
 
+	// Lines between ignore/begin and ignore/end are excluded, nothing on them
+	// is interpreted except the ignore/end that closes the block.
+	if r.inBegin {
+		var isBegin, isEnd bool
+		for _, comment := range lineComments {
+			// nolint:exhaustive
+			switch comment.Type {
+			case comments.IgnoreBeginType:
+				isBegin = true
+			case comments.IgnoreEndType:
+				isEnd = true
+			}
+		}
+		switch {
+		case isEnd:
+			r.skipNext = false
+			r.autoReset = true
+			r.inBegin = false
+		case isBegin:
+			// A nested begin changes nothing, only hide what's in front of it.
+			r.emptyLinePrefix(lineComments)
+		default:
+			r.emptyCurrentLine(lineComments)
+		}
+		return
+	}
+
+	// The line following ignore/next-line is excluded as a whole, including
+	// any pint comments it might carry.
+	if r.skipNext {
+		r.emptyWholeLine()
+		if r.autoReset {
+			r.skipNext = false
+		}
+		return
+	}
+
 	var found bool
 	var skip skipMode
 	for _, comment := range lineComments {
@@ -164,6 +201,30 @@ func (r *ContentReader) parseComments() {
 		r.emptyCurrentLine(lineComments)
 		if r.autoReset {
 			r.skipNext = false
+		}
+	}
+}
+
+func (r *ContentReader) emptyLinePrefix(comments []comments.Comment) {
+	offset := len(r.buf)
+	for _, c := range comments {
+		offset = c.Offset
+		break
+	}
+	for i := range r.buf {
+		if r.buf[i] == '\n' {
+			continue
+		}
+		if i < offset {
+			r.buf[i] = ' '
+		}
+	}
+}
+
+func (r *ContentReader) emptyWholeLine() {
+	for i := range r.buf {
+		if r.buf[i] != '\n' {
+			r.buf[i] = ' '
 		}
 	}
 }
